@@ -26,7 +26,8 @@ EXHAUSTIVE = "every n in 1..64 in each of the four spellings (int, float, 'Cn', 
 offset = st.one_of(
     st.tuples(gen.finite(-30, 30), gen.finite(-30, 30), gen.finite(-30, 30)).map(list),
     st.tuples(st.just(0.0), st.just(0.0), gen.finite(-30, 30)).map(list),
-    st.sampled_from([[0.0, 0.0, 0.0], [10.0, 0.0, 0.0], [0.0, 7.0, 0.0], [3.0, 0.0, 1.0], [-4.0, 4.0, -2.5]]),
+    st.sampled_from([[0.0, 0.0, 0.0], [10.0, 0.0, 0.0], [0.0, 7.0, 0.0], [3.0, 0.0, 1.0], [-4.0, 4.0, -2.5], [0.45, 0.0, 0.0], [0.6, 0.2, -0.2]]),
+    st.tuples(gen.finite(-1, 1), gen.finite(-1, 1), gen.finite(-1, 1)).map(list),  # sub-pixel offsets: only some subunits need recentring
 )
 POSE = ["x", "y", "z", "shift_x", "shift_y", "shift_z", "phi", "theta", "psi"]
 SKIP = set(POSE) | {"subtomo_id", "geom2", "geom5"}
@@ -38,6 +39,7 @@ def strategy(tier):
         "n": st.one_of(st.integers(1, 64), st.integers(1, 14), st.sampled_from([7, 11, 13, 14, 17, 49, 64])),
         "spelling": st.sampled_from(["int", "float", "C", "c"]),
         "s": offset,
+        "s_as": st.sampled_from(["list", "list", "array", "tuple"]),
     })
 
 
@@ -71,7 +73,14 @@ def run(case):
     if not ok:
         return out
     before = m.df.copy()
-    ok, r = call(out, "split_in_asymmetric_subunits", lambda: m.split_in_asymmetric_subunits(sym, list(case["s"])))
+    s_as = case.get("s_as", "list")
+    s_arg = {"list": list(case["s"]), "array": np.array(case["s"], dtype=float), "tuple": tuple(case["s"])}[s_as]
+    out.label(f"offset_as:{s_as}")
+    if s_as == "array":
+        # the caller's array serves a first call on a copy of the list; it must come back untouched and leave no trace
+        call(out, "split_in_asymmetric_subunits", lambda: cryomotl.Motl(df0.copy()).split_in_asymmetric_subunits(sym, s_arg))
+        out.check(np.array_equal(s_arg, np.array(case["s"], dtype=float)), "offset_argument_modified", f"{s_arg.tolist()} vs {case['s']}")
+    ok, r = call(out, "split_in_asymmetric_subunits", lambda: m.split_in_asymmetric_subunits(sym, s_arg))
     if not ok:
         return out
     out.check(m.df.equals(before), "input_list_modified", "")
